@@ -39,7 +39,11 @@ def main():
             b.optimize()
         return b
 
-    def sibling(seed, run=True):
+    OPTVAR = {"tol_fun": [1e-6, 1e-2, 0.1, 10.0], "tol_mesh": [1e-4, 1e-2], "tol_stall_iters": [3, 10], "accelerate_mesh": [False],
+              "complete_poll": [True], "n_search": [1024], "search_grid_number": [5, 20], "hedge_gamma": [0.3], "gp_radius": [2],
+              "search_n_try": [1, 6], "n_basis": [50], "max_iter": [7], "poll_mesh_multiplier": [4.0]}
+
+    def sibling(seed, run=True, optvar=False):
         """the SAME problem (same D, bounds, target family) under another seed / budget / design size:
         the history most likely to collide with any per-process cache"""
         rs = np.random.RandomState(seed)
@@ -51,6 +55,13 @@ def main():
             sp["options"]["max_fun_evals"] += sp["options"]["fun_eval_start"]
         if sp.get("x0") is not None and rs.rand() < 0.5:
             sp["x0"] = None if sp["cons"]["kind"] == "none" else sp["x0"]
+        if optvar:
+            # same problem, same D, OTHER (non-seed) option values: whatever an instance derives from its options must stay its own
+            names = sorted(OPTVAR)
+            for nm in rs.choice(names, size=int(rs.randint(1, 4)), replace=False):
+                sp["options"][str(nm)] = OPTVAR[str(nm)][int(rs.randint(len(OPTVAR[str(nm)])))]
+            if rs.rand() < 0.5:
+                sp["options"]["tol_fun"] = float(rs.choice(OPTVAR["tol_fun"]))
         P2 = gen.Problem(sp)
         b = BADS(P2.fun, non_box_cons=P2.cons, options=dict(P2.options), **P2.bads_args())
         if run:
@@ -94,7 +105,7 @@ def main():
         elif step[0] == "construct":
             keep.append(unrelated(step[1], step[2], False, False))
         elif step[0] == "sibling":
-            keep.append(sibling(step[1], step[2]))
+            keep.append(sibling(step[1], step[2], bool(step[3]) if len(step) > 3 else False))
     out["state_at_construction"] = state_digest()
     b, calls = build()
     for step in plan.get("mid", []):
@@ -107,7 +118,7 @@ def main():
         elif step[0] == "construct":
             keep.append(unrelated(step[1], step[2], False, False))
         elif step[0] == "sibling":
-            keep.append(sibling(step[1], step[2]))
+            keep.append(sibling(step[1], step[2], bool(step[3]) if len(step) > 3 else False))
     out["state_at_optimize"] = state_digest()
     r = b.optimize()
     out["calls"] = calls
